@@ -23,7 +23,8 @@ class C07(Prop):
     level = "exploration"
     technique = "offline exactly-once / per-port-order checker over the callback log of a running multi-port bridge (unique tags, sentinel barriers, raising callbacks, seeded cross-port send order)"
     rule = ("history = 20..200 datagrams over {valid broadcast of each family, exact repeat of the previous valid one, foreign bytes, truncated, "
-            "bit flipped in magic / model / a field, unknown model, undecodable field, empty} x 1..4 ports x callback-raise schedule (never, every "
+            "bit flipped in magic / model / a field, unknown model, undecodable field, empty} x 1..4 ports (every 5th history on the library's default ports 20002/10002/20003/10003) x device ids from a 3-id pool per port "
+            "(bad and valid datagrams share ids) x callback-raise schedule (never, every "
             "k-th, first n, on chosen tags) x seeded cross-port send order with yield points; distinct = (class sequence per port, raise "
             "schedule); non-trivial = histories with at least one bad datagram or raising callback followed by a valid broadcast on the same port")
     level_text = ("Held-on-observed: per port the delivered tag sequence (undecided tags removed) must equal the sent sequence of valid tags, "
@@ -59,8 +60,12 @@ class C07(Prop):
         self.tag = (self.tag + 1) % udp.SENTINEL_BASE
         return f"{self.tag:06x}"
 
-    def _make(self, r, cls, j, prev_valid):
-        """-> (bytes, verdict, tag, desc)  verdict in VALID / INVALID / UNSPEC."""
+    def _make(self, r, cls, j, prev_valid, pool, unspec_pool):
+        """-> (bytes, verdict, tag, desc)  verdict in VALID / INVALID / UNSPEC.
+
+        Device ids come from a small per-port pool, as real devices keep broadcasting under one id: a bad datagram
+        and a later valid broadcast may carry the same id.  Datagrams whose delivery is unspecified use ids of
+        their own so that they can be taken out of the delivered sequence."""
         if cls == "repeat":
             if prev_valid is None:
                 cls = "valid"
@@ -75,14 +80,22 @@ class C07(Prop):
             return bytes(b), "INVALID", None, None
         if cls == "empty":
             return b"", "INVALID", None, None
-        tag = self._next_tag()
         model = gen.MODELS[j % 9] if r.random() < 0.7 else r.choice(gen.MODELS)
+        # decide first whether delivery of this datagram is decided by the statement: only undecided ones get ids of their own
+        n_cut = r.randrange(1, 40)
+        flip_pos, flip_bit = 74 + r.randrange(2), 1 << r.randrange(8)
+        code = bytearray(bytes.fromhex(rb.MODELS[model][0]))
+        code[flip_pos - 74] ^= flip_bit
+        undecided = (cls in ("flip_field", "undecodable")
+                     or (cls == "truncated" and (rb.LENGTHS[rb.MODELS[model][2]] - n_cut) in (165, 168, 159))
+                     or (cls == "flip_model" and bytes(code) in rb.CODE_TO_MODEL))
+        tag = r.choice(unspec_pool) if undecided else r.choice(pool)
         d = gen.broadcast_desc(r, model, r.randrange(10 ** 6), tag)
         data = rb.encode(d, filler=r.randbytes(168) if r.random() < 0.5 else None)
         if cls == "valid":
             return data, "VALID", tag, d
         if cls == "truncated":
-            cut = data[: -r.randrange(1, 40)]
+            cut = data[:-n_cut]
             # cut down to another family's length the gate still passes: delivery is then unspecified
             return cut, ("UNSPEC" if rb.gate(cut) else "INVALID"), tag, d
         b = bytearray(data)
@@ -93,7 +106,7 @@ class C07(Prop):
             if cls == "unknown_model":
                 b[74:76] = r.choice([b"\xff\xff", b"\x00\x00", b"\x03\x18", b"\x0c\x03", r.randbytes(2)])
             else:
-                b[74 + r.randrange(2)] ^= 1 << r.randrange(8)
+                b[flip_pos] ^= flip_bit
             return bytes(b), ("UNSPEC" if bytes(b[74:76]) in rb.CODE_TO_MODEL else "INVALID"), tag, d
         if cls == "flip_field":
             fb = sorted(rb.field_bytes(model) - set(range(0, 4)) - set(range(18, 21)) - {38, 39, 74, 75})
@@ -117,7 +130,11 @@ class C07(Prop):
         i = case["i"]
         r = env.rng("C07", case["seed"], i)
         nports = 1 + i % 4
-        ports = self.rig.free_ports(nports)
+        use_defaults = i % 5 == 0 and ctx["shard"] == 0 and all(udp.can_bind(p) for p in (20002, 10002, 20003, 10003))
+        if use_defaults:
+            nports, ports = 4, [20002, 10002, 20003, 10003]   # the library's own defaults (free inside the private namespace)
+        else:
+            ports = self.rig.free_ports(nports)
         log = self.rig.log
         log.clear()
         # callback raise schedule
@@ -132,8 +149,10 @@ class C07(Prop):
             log.raise_on = lambda dev, n: dev.device_id in raising_tags
         else:
             log.raise_on = None
-        bridge = self.Bridge(log.callback, ports)
+        bridge = self.Bridge(log.callback) if use_defaults else self.Bridge(log.callback, ports)
         await bridge.start()
+        pools = {p: [self._next_tag() for _ in range(3)] for p in ports}
+        unspec_pools = {p: [self._next_tag() for _ in range(2)] for p in ports}
         try:
             total = r.randrange(20, 201)
             per_port = {p: [] for p in ports}      # (verdict, tag, desc, cls)
@@ -144,7 +163,7 @@ class C07(Prop):
             for j in range(total):
                 p = r.choice(ports)
                 cls = r.choice(CLASSES)
-                data, verdict, tag, d = self._make(r, cls, j, prev_valid[p])
+                data, verdict, tag, d = self._make(r, cls, j, prev_valid[p], pools[p], unspec_pools[p])
                 if verdict == "VALID":
                     prev_valid[p] = (data, tag, d)
                     if sched == "tags" and r.random() < 0.3:
@@ -198,40 +217,47 @@ class C07(Prop):
         for p in ports:
             seq = per_port[p]
             n_dg += len(seq)
-            unspec = {t for v, t, _, _ in seq if v == "UNSPEC"}
-            invalid = {t for v, t, _, _ in seq if v == "INVALID" and t is not None}
+            unspec = set(unspec_pools[p])
+            invalid = set()
             want = [t for v, t, _, _ in seq if v == "VALID"]
             got = [t for t in delivered[p] if t not in unspec]
             if got != want:
-                bad_inv = [t for t in got if t in invalid and t not in want]
-                if bad_inv:
-                    cls = next(c for v, t, _, c in seq if t == bad_inv[0])
-                    mech = f"delivered-invalid:{cls}"
+                extra = [t for t in set(got) if got.count(t) > want.count(t)]
+                bad_same_id = [c for v, t, _, c in seq if v == "INVALID" and t in extra]
+                if extra and bad_same_id:
+                    mech = f"delivered-invalid:{bad_same_id[0]}"
                 elif sorted(got) == sorted(want):
                     mech = "reordered"
                 elif any(got.count(t) > want.count(t) for t in set(got)):
-                    mech = "duplicated"
+                    mech = "delivered-more-than-valid-sent"   # a duplicate, or a bad datagram was delivered
                 else:
                     mech = "lost"
                     # which class of datagram preceded the first loss?
-                    missing = next(t for t in want if got.count(t) < want.count(t))
-                    idx = next(n for n, (v, t, _, _) in enumerate(seq) if t == missing and v == "VALID")
+                    pos = next((n for n, (a, b) in enumerate(zip(want, got)) if a != b), min(len(want), len(got)))
+                    valid_idx = [n for n, (v, t, _, _) in enumerate(seq) if v == "VALID"]
+                    idx = valid_idx[min(pos, len(valid_idx) - 1)]
                     before = seq[idx - 1][3] if idx else "start"
-                    mech = "repeat-lost" if seq[idx][3] == "repeat" or got.count(missing) else f"lost-after:{before}"
+                    same_id_bad_before = any(v == "INVALID" and t == seq[idx][1] for v, t, _, _ in seq[:idx])
+                    mech = "repeat-lost" if seq[idx][3] == "repeat" else (f"lost-after-bad-datagram-with-same-id:{before}" if same_id_bad_before and before != "valid" else f"lost-after:{before}")
                 acc.violation(mech, f"port {p} ({nports} ports, callback schedule {sched}): delivered {len(got)} valid-tag deliveries, sent {len(want)} valid broadcasts",
                               {"port": p, "history": history_desc[str(p)], "want": want, "got": got,
                                "events": [str(e)[:160] for e in log.events if e[0] != 'device'][:6]})
-            # decoded device matches its datagram
-            seen = set()
-            for v, t, d, _ in seq:
-                if v == "VALID" and t not in seen:
-                    seen.add(t)
-                    for dev in devices.get(t, [])[:1]:
-                        for field, g, w in rb.compare_device(dev, d):
+            # decoded device matches its datagram: the k-th delivery under an id is the k-th valid broadcast sent under it
+            if got == want:
+                nth = {}
+                for v, t, d, _ in seq:
+                    if v != "VALID":
+                        continue
+                    k2 = nth.get(t, 0)
+                    nth[t] = k2 + 1
+                    devs = [x for x in devices.get(t, [])]
+                    if k2 < len(devs):
+                        for field, g, w in rb.compare_device(devs[k2], d):
                             acc.violation(f"decoded-device-wrong:{field}", f"{d['model']}: {field} = {g!r}, want {w!r}", {"desc": d})
         acc.ev(n_dg)
         acc.count("histories")
         acc.count(f"ports_{nports}")
+        acc.count("histories_on_default_ports", int(use_defaults))
         acc.count(f"callback_schedule_{sched}")
         acc.count("callback_raised", sum(1 for k2, p2 in log.events if k2 == "loop_exc" and "CallbackBoom" in p2))
         acc.count("valid_sent", sum(1 for p in ports for v, *_ in per_port[p] if v == "VALID"))
